@@ -26,6 +26,9 @@ TIE_A = ["Tables.export",
          "code:fuzzylite.exporter.FllExporter.rule", "code:fuzzylite.exporter.FllExporter.variable",
          "code:fuzzylite.exporter.FllExporter.input_variable", "code:fuzzylite.exporter.FllExporter.output_variable",
          "code:fuzzylite.exporter.FllExporter.rule_block", "code:fuzzylite.exporter.FllExporter.engine"]
+TIE_A += [f"code:fuzzylite.importer.FllImporter.{m}" for m in (
+    "extract_key_value", "extract_value", "boolean", "range", "tnorm", "snorm", "activation", "defuzzifier", "term", "rule",
+    "input_variable", "output_variable", "rule_block", "_process", "engine")]
 RULE = ("generated engines over every registered term class (incl. Discrete, Linear, Function, Constant), norm, defuzzifier "
         "(resolution / type), activation method (parameters), descriptions, disabled variables / blocks, heights and weights "
         "(1 | far from 1 | inside the tolerance | around the rounding boundary of the printed form), infinite / NaN ranges, NaN / "
@@ -719,6 +722,19 @@ def correspond(ctx):
                 st.count("text-double-rounding(model comparison skipped)")
                 continue
             ask(["fll-cycle", d, tol, C.hexs(text)], ("cycle", case, real))
+    # ---- the text cases of the corpus (inputs found by the code ties of the importer): model import = real import
+    for fn in sorted(glob.glob(os.path.join(CORPUS, "*.json"))):
+        case = json.load(open(fn))["case"]
+        if case.get("kind") != "text":
+            continue
+        d, text = int(case["decimals"]), case["text"]
+        with fl.settings.context(decimals=d), np.errstate(all="ignore"):
+            try:
+                real = ("ok", export(fl.FllImporter().from_string(text)))
+            except Exception as ex:  # noqa: BLE001
+                real = ("err", kind_of(ex))
+        st.count("text-corpus")
+        ask(["fll-cycle", d, tol, C.hexs(text)], ("cycle", case, real))
     # ---- single components
     for case in component_cases(ctx):
         d, k, spec = case["decimals"], case["kind"], case["spec"]
